@@ -1,15 +1,12 @@
 (* C43, brick program C43NortonMisesLinear (Hooke + Norton / von Mises / linear isotropic hardening), hypothesis with
-   3-component tensors: every entry of the rows of the strain-partition residual (feel) of the jacobian emitted by the brick is the partial
-   derivative of the emitted residual (the row of the flow equation fp is not proved: see NOTES.md). *)
+   3-component tensors: EVERY entry of the jacobian emitted by the brick is the partial derivative of the emitted residual
+   (rows of the strain partition and row of the flow equation dp - dt A <(seq - R)/K>^E). *)
 From Coq Require Import Reals List Lra.
 From Coquelicot Require Import Coquelicot.
 From VLib Require Import RealExtra.
-Require Import GBehLib BehSpec Genbnml.
+Require Import GBehLib BehSpec C43Lib Genbnml.
 Import ListNotations.
 Local Open Scope R_scope.
-
-Ltac spec_unfold := unfold norton_seq2, seq2, dev, hooke, lame_lambda, lame_mu,
-  vadd, vsub, vscal, vdot, vmap2, tabulate, diag3, tr3, nthR in *.
 
 Section Bnml.
   Variables eel0 eel1 eel2 deto0 deto1 deto2 p dt epsilon theta young nu rv Rini Hiso Kn En An : R.
@@ -23,14 +20,27 @@ Section Bnml.
     1 + nu <> 0 -> 1 - 2 * nu <> 0 -> 0 < Kn ->
     0 < norton_seq2 3 [eel0;eel1;eel2] young nu theta z ->
     Rini + Hiso * (p + theta * z3) < sqrt (norton_seq2 3 [eel0;eel1;eel2] young nu theta z) ->
-    forall i j, (i < 3)%nat -> (j < 4)%nat ->
+    forall i j, (i < 4)%nat -> (j < 4)%nat ->
     is_derive (fun x => nthR (bnml_fz (upd z j x)) i) (nthR z j) (nthR (bnml_jac z) (4 * i + j)).
   Proof.
     intros z H1 H2 HK Hs HR. unfold z in *. clear z. spec_unfold. cbn in Hs, HR.
-    match type of Hs with 0 < ?a => set (sa := a) in * end.
-    assert (Hq : 0 < sqrt sa) by (apply sqrt_lt_R0; exact Hs).
+    set (la := nu * young / ((1 + nu) * (1 - 2 * nu))) in *.
+    set (mu2 := 2 * (young / (2 * (1 + nu)))) in *.
+    (* the von Mises argument and the flow argument (seq - R)/K in the form they have in the traced jacobian *)
+    pose (T := nthR (bnml_jac [z0;z1;z2;z3]) 12).
+    lazy beta iota zeta delta [bnml_jac bnml_jac_hag nthR nth] in T; fold la mu2 in T; unfold Rminus, Rdiv in T.
+    let b := first_sqrt_arg T in set (sb := b) in *.
+    match type of Hs with 0 < ?a => replace a with sb in * by (unfold sb; field) end.
+    assert (Hq : 0 < sqrt sb) by (apply sqrt_lt_R0; exact Hs).
+    set (q := sqrt sb) in *.
+    let b := first_rpower_base T in set (u := b) in *.
+    assert (Hu : 0 < u).
+    { replace u with ((q - (Rini + Hiso * (p + theta * z3))) / Kn) by (unfold u; field; lra). apply Rdiv_lt_0_compat; lra. }
+    clear T.
     forall_pairs_tac ltac:(
-      unfold bnml_fz, bnml_jac, bnml_fz_hag, bnml_jac_hag, nthR, Rpower; cbn [upd nth Nat.mul Nat.add];
-      auto_derive; unify_sqrt sa ltac:(unfold sa; field; nz); set (q := sqrt sa) in *; [ nz | field; nzz ]).
+      lazy beta iota zeta delta [bnml_fz bnml_jac bnml_fz_hag bnml_jac_hag nthR nth upd Nat.mul Nat.add Rpower];
+      fold la mu2;
+      auto_derive; unfold Rminus, Rdiv; fold sb; fold q; fold u;
+      [ pos_side | unfold u; field; pos_side ]).
   Qed.
 End Bnml.
